@@ -4,6 +4,7 @@ package corerad
 
 import (
 	"fmt"
+	"io/fs"
 	"net"
 	"os"
 	"syscall"
@@ -163,6 +164,14 @@ func (c *advCase) doc() model.Doc {
 	if c.UnicastOnly {
 		f.UnicastOnly = model.B(true)
 	}
+	// header fields away from their defaults, so that an RA built from anything
+	// but the interface's configuration (the final one included) shows
+	switch vlib.Hash64(c.ID) % 3 {
+	case 1:
+		f.Preference, f.Managed, f.HopLimit = model.S("high"), model.B(true), model.I(37)
+	case 2:
+		f.Preference, f.OtherConfig = model.S("low"), model.B(true)
+	}
 	switch c.Lifetime {
 	case "":
 	case "0s":
@@ -303,7 +312,16 @@ func advRun(t *testing.T, c *advCase) *advResult {
 			case "fwderr": // the forwarding state is unreadable while On
 				h.settle()
 				if s.On {
-					h.st.SetFwdErr(func(int, string) error { return fmt.Errorf("open: %w", vfake.ErrSyscall) })
+					var fe error = fmt.Errorf("open: %w", vfake.ErrSyscall)
+					switch s.Err {
+					case "notexist": // what reading a sysctl of an interface that is gone returns
+						fe = &fs.PathError{Op: "open", Path: "/proc/sys/net/ipv6/conf/" + ifi.Name + "/forwarding", Err: syscall.ENOENT}
+					case "perm":
+						fe = &fs.PathError{Op: "open", Path: "/proc/sys/net/ipv6/conf/" + ifi.Name + "/forwarding", Err: syscall.EACCES}
+					case "other":
+						fe = fmt.Errorf("open: %w", vfake.ErrOther)
+					}
+					h.st.SetFwdErr(func(int, string) error { return fe })
 				} else {
 					h.st.SetFwdErr(nil)
 				}
@@ -677,9 +695,30 @@ func advC07(r *vlib.Run, c *advCase, res *advResult) {
 			}
 			return true
 		}
+		// A scheduled transmission whose RA cannot even be built (the forwarding state
+		// is unreadable) fails without the socket ever seeing it; the initial RA of
+		// a generation is not a scheduled transmission.  So every failed write
+		// counts, and each failed forwarding read may.
+		fwdFailed := 0
+		for _, e := range ev {
+			if e.Kind == "fwd_read" && e.Err != "" {
+				fwdFailed++
+			}
+		}
+		chkErr := func() bool {
+			if fwdFailed == 0 {
+				return chk("corerad_advertiser_errors_total", name+",error=transmit", failed)
+			}
+			got := int(res.metric("corerad_advertiser_errors_total", name+",error=transmit"))
+			if got < failed || got > failed+fwdFailed {
+				r.Violation(c.ID, "counter:corerad_advertiser_errors_total{error=transmit}", fmt.Sprintf("corerad_advertiser_errors_total{%s,error=transmit} = %d, but the trace shows %d failed writes and %d RAs that could not be built", name, got, failed, fwdFailed), det())
+				return false
+			}
+			return true
+		}
 		if !chk("corerad_advertiser_router_advertisements_total", name+",type=unicast", okUnicast) ||
 			!chk("corerad_advertiser_router_advertisements_total", name+",type=multicast", okMulticast) ||
-			!chk("corerad_advertiser_errors_total", name+",error=transmit", failed) ||
+			!chkErr() ||
 			!chk("corerad_advertiser_messages_received_total", name+",message=router solicitation", validRS) ||
 			!chk("corerad_advertiser_messages_received_total", name+",message=router advertisement", validRA) {
 			return
